@@ -111,6 +111,8 @@ pub struct Regs {
     pub swapgs_count: u64,
     /// single-step mode: value an emulated pushfq pushes (None = the real flags with the emulated IF)
     pub rflags_override: Option<u64>,
+    /// single-step mode: other RFLAGS bits (VIF, VIP, AC, ID, IOPL, NT) the emulated pushfq reports as set
+    pub pushfq_or: u64,
     /// single-step mode: intercept popfq, record its operand and skip it (the operand becomes the next override)
     pub capture_popfq: bool,
 }
@@ -132,6 +134,7 @@ pub static mut REGS: Regs = Regs {
     mirror_if: false,
     swapgs_count: 0,
     rflags_override: None,
+    pushfq_or: 0,
     capture_popfq: false,
 };
 
@@ -628,6 +631,7 @@ extern "C" fn handler(sig: i32, info: *mut libc::siginfo_t, uc: *mut libc::c_voi
                 let r = regs();
                 let mut fl = (*efl as u64) & !0x100;
                 fl = (fl & !0x200) | ((r.iflag as u64) << 9);
+                fl |= r.pushfq_or & !0x200;
                 if let Some(v) = r.rflags_override {
                     fl = v;
                 }
